@@ -180,6 +180,9 @@ def block_rules(name):
             Rule(r'static const uint32_t shifts\[64\] = \{[^{}]*\};', '', count=1, regex=True),       # hoisted to file scope
             Rule(r'static const uint32_t sine_table\[64\] = \{[^{}]*\};', '', count=1, regex=True),   # (dfcc havocs local statics)
             Rule('fields[g]', 'le_uint32_t_conv(&fields[g])', count=1),     # implicit conversion operator of le_uint32_t
+            # value-initialised local arrays / alignof: C spellings
+            Rule(r'(\b[\w ]+\b\s+\w+(?:\[[^\]]*\])+\s*=\s*)\{\s*\};', r'\1{0};', count=None, regex=True),
+            Rule(r'\balignof\(', '_Alignof(', count=None, regex=True),
             at_start(block_prefix('block', 4, False)),
             # RFC 1321 operation number g_r on the registers A,B,C,D = g_v[0..3]
             LoopGhost(1, 'g_xk = C10_LE32_AT(block, C10_MD5_K[g_r]); g_s = C10_MD5_S[g_r]; g_ti = C10_MD5_T[g_r]; '
@@ -299,9 +302,20 @@ def md_unit(ctx, src, name):
     u.block(src, HCC, A['ctor'], A['intro'], new_header='void %s_process_block(%s* self, const void* %s)' % (name, name, A['blk']),
             rules=rules, loops=loops, nloops=nloops)
     # --- constructor: block loop + padding tail; the lambda definition is cut out (it is the function above)
-    lh, lb, ls, le_ = lex.find_block(ctor_body, A['intro'], 'lambda')
-    lam = generic_text(ctor_body[ls:le_])
-    crules = [Rule(lam + ';', '/* process_block: lifted */', count=1)]
+    lex.find_block(ctor_body, A['intro'], 'lambda')       # (must exist)
+
+    class CutLambda(Rule):
+        """the lambda definition (intro .. closing brace ;) is removed by position in the text as it is when the rule runs"""
+        def __init__(self):
+            self.pat, self.count = 'lambda definition cut out', 1
+
+        def apply(self, text, where=''):
+            lh2, lb2, s2, e2 = lex.find_block(text, A['intro'], 'lambda')
+            rest = text[e2:]
+            if not rest.lstrip().startswith(';'):
+                raise ExtractionBreak('%s: lambda definition not followed by `;`' % where)
+            return text[:s2] + '/* process_block: lifted */' + rest.lstrip()[1:]
+    crules = [CutLambda()]
     if name == 'SHA256':
         crules.append(Rule(r'static const uint32_t k\[64\] = \{[^{}]*\};', '', count=1, regex=True))
     crules += [
@@ -363,6 +377,11 @@ def md_groups(ctx, name, u):
                     clause_note='contracts/C10_md.h: state after == chaining value advanced by the standard\'s steps in lock-step; '
                                 'message schedule satisfies the standard\'s equations at the ghost indices',
                     replay=Replay(mode=low, **RP)))
+    gs.append(Group(name='Hash.%s.process_block[unaligned block]' % name, harness=H, entry='h_block_unaligned', function='%s::%s (process_block lambda)' % (name, name),
+                    enforce='%s_process_block' % name, loops=True, kind='loop-contract', defines=D + ['C10_PB_UNALIGNED=1'], min_post=3, timeout=300,
+                    object_bits=12,
+                    clause_note='the same contract for a block that starts 1..3 bytes into its object (a message hashed from an unaligned address)',
+                    replay=Replay(mode=low, extra=['unaligned'], **RP)))
     gs.append(Group(name='Hash.%s.constructor' % name, harness=H, entry='h_ctor', function='%s::%s(const void*, size_t)' % (name, name),
                     enforce='%s_ctor' % name, replace=['%s_process_block' % name] + u.ctor_stubs, loops=True, kind='loop-contract',
                     defines=D + ['C10_PB_REPLACED=1'], min_post=6, timeout=300, object_bits=12,
